@@ -3,6 +3,7 @@ package eng
 import (
 	"fmt"
 	"go/ast"
+	"go/parser"
 	"go/token"
 	"go/types"
 	"os"
@@ -10,6 +11,7 @@ import (
 	"regexp"
 	"sort"
 	"strings"
+	"time"
 
 	"golang.org/x/tools/go/packages"
 	"golang.org/x/tools/go/ssa"
@@ -83,11 +85,28 @@ func loadPkgs(cfg LoadConfig, overlay map[string][]byte) ([]*packages.Package, *
 // and old() types mentioned by contracts, generates the overlay, phase 2 loads with the
 // overlay and builds SSA.
 func Load(cfg LoadConfig) (*Program, error) {
-	pkgs1, fset1, err := loadPkgs(cfg, nil)
+	// phase 0: find the packages and their contract files (no type checking)
+	t0 := time.Now()
+	defer func() {
+		if os.Getenv("GVC_TIMING") != "" {
+			fmt.Fprintf(os.Stderr, "load total %v\n", time.Since(t0))
+		}
+	}()
+	base, err := baseOverlays(cfg)
+	if os.Getenv("GVC_TIMING") != "" {
+		fmt.Fprintf(os.Stderr, "phase0 %v\n", time.Since(t0))
+	}
 	if err != nil {
-		return nil, fmt.Errorf("phase 1: %w", err)
+		return nil, fmt.Errorf("phase 0: %w", err)
+	}
+	pkgs1, fset1, err := loadPkgs(cfg, base)
+	if err != nil {
+		return nil, fmt.Errorf("phase 1 (prelude, ghost state and spec helpers only): %w", err)
 	}
 	p := &Program{Cfg: cfg, Files: map[string]*ContractFile{}, Contracts: map[string]*Contract{}, Externs: map[string]*Contract{}, Overlay: map[string][]byte{}, srcCache: map[string][]byte{}}
+	if os.Getenv("GVC_TIMING") != "" {
+		fmt.Fprintf(os.Stderr, "phase1 %v\n", time.Since(t0))
+	}
 	all1 := map[string]*packages.Package{}
 	packages.Visit(pkgs1, nil, func(pk *packages.Package) { all1[pk.PkgPath] = pk })
 	// find contract files
@@ -135,6 +154,9 @@ func Load(cfg LoadConfig) (*Program, error) {
 	if err != nil {
 		return nil, fmt.Errorf("phase 2 (with generated specs): %w", err)
 	}
+	if os.Getenv("GVC_TIMING") != "" {
+		fmt.Fprintf(os.Stderr, "phase2 %v\n", time.Since(t0))
+	}
 	p.Pkgs, p.Fset = pkgs, fset
 	p.AllPkgs = map[string]*packages.Package{}
 	packages.Visit(pkgs, nil, func(pk *packages.Package) { p.AllPkgs[pk.PkgPath] = pk })
@@ -149,6 +171,57 @@ func Load(cfg LoadConfig) (*Program, error) {
 		return nil, err
 	}
 	return p, nil
+}
+
+// baseOverlays builds, per package with contracts, an overlay holding only the prelude, the
+// ghost variables and the verbatim spec helpers, so that phase 1 can type old() arguments
+// that mention them.
+func baseOverlays(cfg LoadConfig) (map[string][]byte, error) {
+	tags := "verif"
+	if cfg.Tags != "" {
+		tags = cfg.Tags
+	}
+	pc := &packages.Config{Mode: packages.NeedName | packages.NeedFiles | packages.NeedImports | packages.NeedDeps | packages.NeedModule,
+		Dir: cfg.ModDir, BuildFlags: []string{"-tags=" + tags, "-mod=mod"}, Env: append(os.Environ(), cfg.Env...)}
+	pkgs, err := packages.Load(pc, cfg.Patterns...)
+	if err != nil {
+		return nil, err
+	}
+	out := map[string][]byte{}
+	var ferr error
+	packages.Visit(pkgs, nil, func(pk *packages.Package) {
+		if pk.Module == nil || len(pk.GoFiles) == 0 || ferr != nil {
+			return
+		}
+		dir := filepath.Dir(pk.GoFiles[0])
+		if !strings.HasPrefix(dir, cfg.ModDir) && !inRepo(dir) {
+			return
+		}
+		matches, _ := filepath.Glob(filepath.Join(dir, "verif_contracts*.go"))
+		matches = append(matches, cfg.ExtraSpecs[pk.PkgPath]...)
+		if len(matches) == 0 {
+			return
+		}
+		sort.Strings(matches)
+		merged := &ContractFile{PkgPath: pk.PkgPath}
+		for _, f := range append(append([]string{}, matches...), cfg.SharedSpecs...) {
+			cf, err := ParseContractFile(f, pk.PkgPath)
+			if err != nil {
+				ferr = err
+				return
+			}
+			merged.Imports = append(merged.Imports, cf.Imports...)
+			merged.Ghosts = append(merged.Ghosts, cf.Ghosts...)
+			merged.SpecLines = append(merged.SpecLines, cf.SpecLines...)
+		}
+		src, err := generateOverlay(pk, nil, merged)
+		if err != nil {
+			ferr = err
+			return
+		}
+		out[filepath.Join(dir, overlayName)] = src
+	})
+	return out, ferr
 }
 
 func inRepo(dir string) bool { return strings.HasPrefix(dir, "/repo") }
@@ -230,7 +303,19 @@ func generateOverlay(pk *packages.Package, fset *token.FileSet, cf *ContractFile
 		}
 	}
 	// imports of the package's own files are available under their names
-	for _, f := range pk.Syntax {
+	syntax := pk.Syntax
+	if len(syntax) == 0 {
+		pfset := token.NewFileSet()
+		for _, gf := range pk.GoFiles {
+			if filepath.Base(gf) == overlayName {
+				continue
+			}
+			if af, err := parser.ParseFile(pfset, gf, nil, parser.ImportsOnly); err == nil {
+				syntax = append(syntax, af)
+			}
+		}
+	}
+	for _, f := range syntax {
 		for _, is := range f.Imports {
 			path := strings.Trim(is.Path.Value, `"`)
 			name := ""
@@ -239,7 +324,7 @@ func generateOverlay(pk *packages.Package, fset *token.FileSet, cf *ContractFile
 				if name == "_" || name == "." {
 					continue
 				}
-			} else if ip := pk.Imports[path]; ip != nil {
+			} else if ip := pk.Imports[path]; ip != nil && ip.Name != "" {
 				name = ip.Name
 			} else {
 				name = filepath.Base(path)
@@ -318,7 +403,7 @@ func generateOverlay(pk *packages.Package, fset *token.FileSet, cf *ContractFile
 					switch {
 					case it == "nothing" || it == "everything" || it == "":
 						items = append(items, fmt.Sprintf("%q", it))
-					case strings.HasPrefix(it, "heap(") || strings.HasPrefix(it, "ghost("):
+					case strings.HasPrefix(it, "heap(") || strings.HasPrefix(it, "struct("):
 						items = append(items, fmt.Sprintf("%q", it))
 					case strings.HasPrefix(it, "elems(") && strings.HasSuffix(it, ")"):
 						items = append(items, `"elems"`, it[6:len(it)-1])
